@@ -1,0 +1,6 @@
+//! Verification hooks (only compiled with the `verif-hooks` feature):
+//! thin public wrappers around crate-private items, one sub-module per
+//! verified property.
+#![allow(missing_docs, clippy::unwrap_used, missing_debug_implementations, unreachable_pub)]
+
+pub use iroh_base::verif_hooks as sched;
